@@ -380,6 +380,14 @@ impl<'a> JsonTokenizer<'a> {
     }
 }
 
+fn read_hex4(chars: &mut std::iter::Peekable<std::str::Chars<'_>>) -> Result<u32> {
+    let hex: String = chars.by_ref().take(4).collect();
+    if hex.len() != 4 {
+        bail!("invalid unicode escape: incomplete sequence");
+    }
+    u32::from_str_radix(&hex, 16).wrap_err_with(|| format!("invalid unicode escape: \\u{}", hex))
+}
+
 pub fn unescape_string(s: &str) -> Result<String> {
     let mut result = String::with_capacity(s.len());
     let mut chars = s.chars().peekable();
@@ -396,13 +404,29 @@ pub fn unescape_string(s: &str) -> Result<String> {
                 Some('b') => result.push('\x08'),
                 Some('f') => result.push('\x0C'),
                 Some('u') => {
-                    let hex: String = chars.by_ref().take(4).collect();
-                    if hex.len() != 4 {
-                        bail!("invalid unicode escape: incomplete sequence");
-                    }
-                    let cp = u32::from_str_radix(&hex, 16)
-                        .wrap_err_with(|| format!("invalid unicode escape: \\u{}", hex))?;
-                    if let Some(ch) = char::from_u32(cp) {
+                    let cp = read_hex4(&mut chars)?;
+                    if (0xD800..=0xDBFF).contains(&cp) {
+                        // UTF-16 high surrogate: JSON writes characters above U+FFFF as a
+                        // pair of escapes, the low surrogate must follow immediately
+                        match (chars.next(), chars.next()) {
+                            (Some('\\'), Some('u')) => {
+                                let low = read_hex4(&mut chars)?;
+                                if !(0xDC00..=0xDFFF).contains(&low) {
+                                    bail!(
+                                        "invalid unicode escape: high surrogate U+{:04X} followed by U+{:04X}",
+                                        cp,
+                                        low
+                                    );
+                                }
+                                let combined = 0x10000 + ((cp - 0xD800) << 10) + (low - 0xDC00);
+                                match char::from_u32(combined) {
+                                    Some(ch) => result.push(ch),
+                                    None => bail!("invalid unicode codepoint: U+{:04X}", combined),
+                                }
+                            }
+                            _ => bail!("invalid unicode escape: unpaired high surrogate U+{:04X}", cp),
+                        }
+                    } else if let Some(ch) = char::from_u32(cp) {
                         result.push(ch);
                     } else {
                         bail!("invalid unicode codepoint: U+{:04X}", cp);
